@@ -40,7 +40,13 @@ class Variables {
     DECLARE_MOVE_RESET_FUNC(Variables);
 
   public:
-    void setParent(Variables *parent) { parent_ = parent; }
+    /**
+     * 设置父节点
+     *
+     * \return true     成功
+     * \return false    失败，parent 的父节点链上已有本对象（会形成环，查找不存在的变量将无限递归）
+     */
+    bool setParent(Variables *parent);
 
     /**
      * 定义变量，并指定初始值
